@@ -167,12 +167,57 @@ def register_c08(reg):
         return z3.Implies(d['accessible'] == 1, z3.And(S.true if not writes else S.false, S.true if (xl is not None and len(xl) == 0 and fl is not None and len(fl) == 0) else S.false))
 
     reg.add(Contract(
-        Q, params={'color_decl': DECL, 'bg_decl': ('opt', DECL), 'default_bg': 'str', 'variables': variables_param, 'node': ('obj', 'tinycss2.ast:QualifiedRule', {}),
+        Q, params={'node_list': 'unk', 'declarations_map': 'unk', 'color_decl': DECL, 'bg_decl': ('opt', DECL), 'default_bg': 'str', 'variables': variables_param, 'node': ('obj', 'tinycss2.ast:QualifiedRule', {}),
                    'stats': stats_param, 'premium': 'bool', 'file_path': ('obj', 'pathlib:Path', {'name': 'str'}), 'mode': 'int', 'modified': 'bool'},
         pre=None, setup=setup, result='unk', pure=False, raises=(),
         posts={'counted_exactly_once': exactly_one, 'readable_means_target': readable_means_target, 'adjusted_is_api_success': adjusted_is_api_success,
                'adjusted_written_and_reported': adjusted_written_and_reported, 'attention_listed_untouched': attention_listed_untouched, 'readable_untouched': readable_untouched},
-        props={k: ['C08'] for k in ('counted_exactly_once', 'readable_means_target', 'adjusted_is_api_success', 'adjusted_written_and_reported', 'attention_listed_untouched', 'readable_untouched')}
+        props={k: (['C08', 'C09'] if k in ('adjusted_written_and_reported', 'attention_listed_untouched', 'readable_untouched') else ['C08'])
+               for k in ('counted_exactly_once', 'readable_means_target', 'adjusted_is_api_success', 'adjusted_written_and_reported', 'attention_listed_untouched', 'readable_untouched')}
               | {'pre:update_decl_value': ['C08'], 'pre:get_wcag_level': ['C08'], 'pre:calculate_contrast_ratio': ['C08']},
         opts={'match_objects': True},
+        note='extracted block: see vf/extract.py'))
+
+
+    # ------------------------------------------------------------------ the at-rule block: descent into @media / @supports
+    QA = f'{CLI}:process_nodes_recursive__at_rule'
+    reg.add(Contract(f'{CLI}:process_nodes_recursive', params={}, result='none', posts={}, pure=False, raises=('Exception?',),
+                     assumed='the recursive call: same function, one nesting level down (its own block proofs apply to every level); may raise whatever tinycss2 raises'))
+    def at_param(S, p, ex):
+        return VRef(p.alloc({'__class__': 'tinycss2.ast:AtRule', '__open__': True, 'lower_at_keyword': VStr(code=fresh(I, 'at_keyword')), 'content': VUnk('at-rule content')}), 'tinycss2.ast:AtRule')
+    def descends(S, a, path): return z3.Or(a.node_kw.code == S.lit('media').code, a.node_kw.code == S.lit('supports').code)
+    def setup_at(S, a, p, ex):
+        S.__dict__['_c08_at'] = {'kw': p.cell(a.node.oid)['lower_at_keyword'], 'content': p.cell(a.node.oid)['content']}
+    def calls_of(path):
+        return [ns for t in path.trace if isinstance(t, tuple) and len(t) == 3 and t[0] == 'call' and t[1] == 'process_nodes_recursive' for ns in [t[2]]]
+    def same(x, y):
+        if isinstance(x, VRef) and isinstance(y, VRef): return x.oid == y.oid
+        if isinstance(x, VStr) and isinstance(y, VStr): return x.code.eq(y.code)
+        if isinstance(x, (VInt, VBool)) and isinstance(y, (VInt, VBool)): return x.t.eq(y.t)
+        return x is y
+    def settings_forwarded(S, a, r, path):
+        cs = calls_of(path)
+        ok = all(same(c.default_bg, a.default_bg) and same(c.stats, a.stats) and same(c.file_path, a.file_path) and same(c.variables, a.variables) and same(c.mode, a.mode) and same(c.premium, a.premium)
+                 and isinstance(c.declarations_map, VNone) for c in cs)
+        return S.true if ok else S.false
+    def descends_exactly_when_media_or_supports(S, a, r, path):
+        kw = S._c08_at['kw']
+        is_ms = z3.Or(kw.code == S.lit('media').code, kw.code == S.lit('supports').code)
+        n = len(calls_of(path))
+        if n > 1: return S.false
+        return z3.Implies(S.true if n == 1 else S.false, is_ms) if n == 1 else S.true      # (a content-less at-rule has nothing to descend into)
+    def rebuilt_after_descent(S, a, r, path):
+        # after a descent the at-rule's content is re-serialised from the processed nested rules (never left as parsed before)
+        n = len(calls_of(path))
+        final_content = path.cell(a.node.oid)['content']
+        changed = final_content is not S._c08_at['content']
+        effs = [t[1] for t in path.trace if isinstance(t, tuple) and len(t) == 3 and t[0] == 'effect']
+        after = any(e.endswith('tinycss2.serialize') for e in effs) and any(e.endswith('tinycss2.parse_component_value_list') for e in effs)
+        if n == 1: return S.true if (changed and after) else S.false
+        return S.true if not changed else S.false
+    reg.add(Contract(
+        QA, params={'node_list': 'unk', 'declarations_map': 'unk', 'node': at_param, 'default_bg': 'str', 'stats': stats_param, 'file_path': ('obj', 'pathlib:Path', {'name': 'str'}), 'variables': variables_param, 'mode': 'int', 'premium': 'bool'},
+        pre=None, setup=setup_at, result='unk', pure=False, raises=('Exception?',),
+        posts={'settings_forwarded': settings_forwarded, 'descends_only_into_media_or_supports': descends_exactly_when_media_or_supports, 'rebuilt_after_descent': rebuilt_after_descent},
+        props={k: ['C08', 'C09'] for k in ('settings_forwarded', 'descends_only_into_media_or_supports', 'rebuilt_after_descent')},
         note='extracted block: see vf/extract.py'))
